@@ -57,25 +57,22 @@ theorem foldl_max_props [LinearOrder α] (l : List α) (a : α) :
         · left; rw [h3, max_eq_left h]
       · right; exact List.mem_cons_of_mem _ h3
 
+
 /-! The equation lemmas of the model's definitions are generated on first use and stored in the module that
 first asks for them; asking here keeps `BlugeProofs.C16` (whose theorems are the audited obligations) free of them. -/
 section ForceEqns
+set_option linter.unusedSectionVars false
 variable {S Q : Type} [Add α] [Mul α] [Div α] [OfNat α 0] [OfNat α 1] [LT α] [LE α] [DecidableLT α] [DecidableLE α]
-theorem force_eqns_1 (env : Env α S Q) : cntOf env [] = 0 := by unfold cntOf; rfl
-theorem force_eqns_2 (env : Env α S Q) (m : Metric α) : metricCalc env m = metricCalc env m := by cases m <;> simp only [metricCalc]
-theorem force_eqns_3 (env : Env α S Q) (m : Metric α) (ms : List (DocVals α)) : specMetric env m ms = specMetric env m ms := by
+theorem force_eqns_1 (env : Env α S Q) (m : Metric α) : metricCalc env m = metricCalc env m := by cases m <;> simp only [metricCalc]
+theorem force_eqns_2 (env : Env α S Q) (m : Metric α) (ms : List (DocVals α)) : specMetric env m ms = specMetric env m ms := by
   cases m <;> simp only [specMetric]
-theorem force_eqns_4 (src : μ → List α) (w : Option (μ → List α)) (ms : List μ) : specWAvg src w ms = specWAvg src w ms := by
+theorem force_eqns_3 (src : μ → List α) (w : Option (μ → List α)) (ms : List μ) : specWAvg src w ms = specWAvg src w ms := by
   simp only [specWAvg, lsum]
-theorem force_eqns_5 (src : μ → List α) : sumCalc src = sumCalc src := by unfold sumCalc; rfl
-theorem force_eqns_6 : (countCalc : Calc μ α α) = countCalc := by unfold countCalc; rfl
-theorem force_eqns_7 (a b : α) : sumStep a b = a + b := by unfold sumStep; rfl
-theorem force_eqns_8 {σ : Type} (cnt : σ → Nat) (l : List (Term × σ)) : sumCounts cnt l = sumCounts cnt l := by unfold sumCounts; rfl
-theorem force_eqns_9 {σ : Type} (cnt : σ → Nat) (l : List (Term × σ)) : isortDesc cnt l = isortDesc cnt l := by simp only [isortDesc]
-theorem force_eqns_10 (src : μ → List Term) (t : Term) (ms : List μ) : having src t ms = having src t ms := by simp only [having]
-theorem force_eqns_11 (r : α × α) (v : α) : inNumRange r v = inNumRange r v := by simp only [inNumRange]
-theorem force_eqns_12 (r : Option Int × Option Int) (v : Int) : inDateRange r v = inDateRange r v := by simp only [inDateRange]
-theorem force_eqns_13 {δ κ σ ρ : Type} (cfg : TopNCfg κ) (load : δ → μ) (key : μ → κ) (c : Calc μ σ ρ) (ds : List δ) :
+theorem force_eqns_4 {σ : Type} (cnt : σ → Nat) (l : List (Term × σ)) : isortDesc cnt l = isortDesc cnt l := by simp only [isortDesc]
+theorem force_eqns_5 (src : μ → List Term) (t : Term) (ms : List μ) : having src t ms = having src t ms := by simp only [having]
+theorem force_eqns_6 (r : α × α) (v : α) : inNumRange r v = inNumRange r v := by simp only [inNumRange]
+theorem force_eqns_7 (r : Option Int × Option Int) (v : Int) : inDateRange r v = inDateRange r v := by simp only [inDateRange]
+theorem force_eqns_8 {δ κ σ ρ : Type} (cfg : TopNCfg κ) (load : δ → μ) (key : μ → κ) (c : Calc μ σ ρ) (ds : List δ) :
     collectTopN cfg load key c ds = collectTopN cfg load key c ds := by simp only [collectTopN]
 end ForceEqns
 
